@@ -18,6 +18,12 @@ import pickle
 
 import numpy as np
 
+try:  # loky ships tasks with cloudpickle (closures and lambdas are legal tasks)
+    import cloudpickle as _cp
+    _dumps = _cp.dumps
+except Exception:  # pragma: no cover
+    _dumps = pickle.dumps
+
 
 class ScheduleDivergence(Exception):
     pass
@@ -158,13 +164,13 @@ class _VParallel:
                 w = assign[b]
                 if w not in workers:
                     workers[w] = vj._fresh_worker_globals()
-                payload = pickle.loads(pickle.dumps([tasks[i] for i in batches[b]]))
+                payload = pickle.loads(_dumps([tasks[i] for i in batches[b]]))
                 vj._set_globals(workers[w])
                 try:
                     outs = [f(*a, **k) for (f, a, k) in payload]
                 finally:
                     workers[w] = vj._get_globals()
-                outs = pickle.loads(pickle.dumps(outs))
+                outs = pickle.loads(_dumps(outs))
                 for i, o in zip(batches[b], outs):
                     results[i] = o
         finally:
